@@ -10,6 +10,11 @@ def proj_cors(i, m):
     return [[x[0], x[1]] for x in i], [[y[0], y[1]] for y in m]
 
 
+def proj_cors_c06(i, m):
+    # how often the route function ran behind the CORS filter
+    return [x[1] for x in i], [y[1] for y in m]
+
+
 def proj_allow(i, m):
     return i, m
 
@@ -253,10 +258,10 @@ TB_DISP = ['compress/gzip and compress/zlib: the harness decodes every body with
            'net/http ServeMux: every table has a service on "/" so the mux hands every request to dispatch (the mux is C11\'s subject)']
 PROPS.update({
     'C06': dict(
-        domains=[dict(name='disp', quick=6000, thorough=150000)],
+        domains=[dict(name='disp', quick=6000, thorough=150000), dict(name='cors', quick=12000, thorough=200000)],
         race_domains=[dict(name='disp', quick=480, thorough=12000, args=['-force-conc'])],
         verdicts=['c06_*'],
-        project={'disp': proj_disp_c06},
+        project={'disp': proj_disp_c06, 'cors': proj_cors_c06},
         prop_files=['props/C06.v'],
         trivial_classes=('empty',),
         rule=RULE_DISP, trusted_base=TB_DISP,
